@@ -26,7 +26,7 @@ import (
 )
 
 const rule = "round = an application with 0..7 separately added middleware, routes of every kind (static via the shortcut, optional static, regex with user groups, placeholder, match-all with capture, header-constrained, named routes whose handlers build URLs, Recovery, Renderer and Static (with ETags) middleware, a route that renders JSON through the request-scoped Render service, a route whose handler panics, a middleware that maps a per-request token read from a header, handlers that receive it by type and an application service through an interface it implements; some requests make the route's first handler note the token in the request's own parameter map, some are not-found after a partial match, some use a method the router has no table for; expected responses = every distinct request served alone by an instance that has served nothing else; instance B is fresh (nothing lazily cached yet) and is hit by 2..16 goroutines released together, each with its own list of 5..40 requests and runtime.Gosched() yields inside the handlers, under GOMAXPROCS in {2,4,16}. " +
-	"Oracle: (1) every concurrent response (status, ETag and body = route marker + echoed parameters + token + built URL) equals the response to the same request served alone; (2) the Go race detector reports nothing (binary built with -race, GORACE=halt_on_error=1; the driver turns a report into a violation). " +
+	"Oracle: (1) every concurrent response (status, all response headers and body = route marker + echoed parameters + token + built URL) equals the response to the same request served alone; (2) the Go race detector reports nothing (binary built with -race, GORACE=halt_on_error=1; the driver turns a report into a violation). " +
 	"non-trivial = a round in which >= 2 goroutines start with the same dynamic named route (the first use of lazily cached state is contended) and >= 3 kinds of route are hit; distinct by round text"
 
 var assumptions = []string{
@@ -71,6 +71,10 @@ type Round struct {
 	Procs      int     `json:"gomaxprocs"`
 	Pool       []Req   `json:"pool"`
 	Lists      [][]int `json:"lists"` // per goroutine: indexes into the pool
+	// Dev: development mode - the recovery page then shows the panic value,
+	// which names the request it belongs to (only that line is compared: the
+	// stack below it differs from run to run).
+	Dev bool `json:"development,omitempty"`
 }
 
 type token struct{ v string }
@@ -168,12 +172,13 @@ func build(r Round) *flamego.Flame {
 }
 
 type resp struct {
-	status int
-	body   string
-	etag   string
+	status  int
+	body    string
+	headers string // every response header, sorted
+	escaped string // a panic that left ServeHTTP
 }
 
-func serve(f *flamego.Flame, q Req) resp {
+func serve(f *flamego.Flame, q Req) (r resp) {
 	h := http.Header{}
 	h.Set("X-Token", q.Token)
 	if q.Hdr != "" {
@@ -183,8 +188,35 @@ func serve(f *flamego.Flame, q Req) resp {
 		h.Set("X-Scratch", "1")
 	}
 	spy := rt.NewSpy()
+	defer func() {
+		// nothing may escape ServeHTTP (Recovery is installed, and routing itself
+		// never panics): if something does, it is this request's outcome
+		if p := recover(); p != nil {
+			r = resp{escaped: fmt.Sprint(p)}
+		}
+	}()
 	f.ServeHTTP(spy, rt.NewRequest(q.M, q.P, h))
-	return resp{spy.Status(), string(spy.Body), spy.H.Get("ETag")}
+	var hs []string
+	for k, vs := range spy.H {
+		hs = append(hs, k+": "+strings.Join(vs, " | "))
+	}
+	sort.Strings(hs)
+	body := string(spy.Body)
+	if i := strings.Index(body, "<title>"); i >= 0 && spy.Status() == http.StatusInternalServerError {
+		// the development recovery page: the title names the panic value, the
+		// stack trace below it is not comparable between runs
+		if j := strings.Index(body[i:], "</title>"); j >= 0 {
+			body = body[i : i+j]
+		}
+	}
+	return resp{status: spy.Status(), body: body, headers: strings.Join(hs, "\n")}
+}
+
+func clip(s string) string {
+	if len(s) > 300 {
+		return s[:300] + "..."
+	}
+	return s
 }
 
 func kindOf(body string) string {
@@ -197,7 +229,11 @@ func kindOf(body string) string {
 func checkRound(r Round) (out evid.Outcome) {
 	old := runtime.GOMAXPROCS(r.Procs)
 	defer runtime.GOMAXPROCS(old)
-	flamego.SetEnv(flamego.EnvTypeProd) // the recovery page is then the same for every panic
+	if r.Dev {
+		flamego.SetEnv(flamego.EnvTypeDev)
+	} else {
+		flamego.SetEnv(flamego.EnvTypeProd) // the recovery page is then the same for every panic
+	}
 	defer flamego.SetEnv(flamego.EnvTypeDev)
 	// expected: every distinct request served alone, by an instance that has
 	// served nothing else (so nothing an earlier request left behind can taint it)
@@ -219,8 +255,15 @@ func checkRound(r Round) (out evid.Outcome) {
 		go func(g int, list []int) {
 			defer wg.Done()
 			<-start
-			for _, i := range list {
-				got := serve(b, r.Pool[i])
+			for j, i := range list {
+				// every request in flight carries a token of its own, so that two
+				// requests for the same pool entry cannot be swapped unnoticed
+				q := r.Pool[i]
+				uniq := fmt.Sprintf("%s-g%d-%d", q.Token, g, j)
+				q.Token = uniq
+				got := serve(b, q)
+				got.body = strings.ReplaceAll(got.body, uniq, r.Pool[i].Token)
+				got.headers = strings.ReplaceAll(got.headers, uniq, r.Pool[i].Token)
 				if got != want[i] {
 					mu.Lock()
 					bads = append(bads, bad{g, i, got})
@@ -237,8 +280,8 @@ func checkRound(r Round) (out evid.Outcome) {
 	}
 	if len(bads) > 0 {
 		x := bads[0]
-		return evid.Fail("isolation", "goroutine %d, request %+v: concurrent response %d %q differs from the response when served alone %d %q (%d of %d responses differ)",
-			x.g, r.Pool[x.i], x.got.status, x.got.body, want[x.i].status, want[x.i].body, len(bads), out.Sub)
+		return evid.Fail("isolation", "goroutine %d, request %+v: concurrent response %d %q (headers %q, escaped panic %q) differs from the response when served alone %d %q (headers %q) (%d of %d responses differ)",
+			x.g, r.Pool[x.i], x.got.status, clip(x.got.body), x.got.headers, x.got.escaped, want[x.i].status, clip(want[x.i].body), want[x.i].headers, len(bads), out.Sub)
 	}
 	// classification
 	kinds := map[string]bool{}
@@ -276,7 +319,7 @@ var seg = []string{"a", "bob", "x.y", "12", "%41", "main.go", "src", "lib", "dee
 func genReq(t *rapid.T, n int) Req {
 	s := func() string { return seg[rapid.IntRange(0, len(seg)-1).Draw(t, "seg")] }
 	q := Req{M: "GET", Token: fmt.Sprintf("tok-%d", n)}
-	switch rapid.IntRange(0, 17).Draw(t, "rk") {
+	switch rapid.IntRange(0, 18).Draw(t, "rk") {
 	case 0:
 		q.P = "/"
 	case 1:
@@ -315,7 +358,11 @@ func genReq(t *rapid.T, n int) Req {
 		q.P = "/g/" + s() + "/r/" + s()
 		q.M = []string{"GET", "POST"}[rapid.IntRange(0, 1).Draw(t, "cm")]
 	case 12:
-		q.P = []string{"/nosuch/", "/render/", "/render/", "/panic/"}[rapid.IntRange(0, 3).Draw(t, "rp")] + s()
+		q.P = "/nosuch/" + s()
+	case 16:
+		q.P = "/render/" + s()
+	case 17:
+		q.P = "/panic/" + s() + "-" + q.Token
 	case 13:
 		q.P = "//users//" + s()
 	case 15:
@@ -340,6 +387,7 @@ func genRound(t *rapid.T) Round {
 		Middleware: rapid.IntRange(0, 7).Draw(t, "middleware"),
 		Yields:     rapid.IntRange(0, 3).Draw(t, "yields"),
 		Procs:      []int{2, 4, 16}[rapid.IntRange(0, 2).Draw(t, "procs")],
+		Dev:        rapid.IntRange(0, 2).Draw(t, "dev") == 0,
 	}
 	n := rapid.IntRange(4, 30).Draw(t, "pool")
 	for i := 0; i < n; i++ {
